@@ -30,6 +30,10 @@ def configs():
         for b in FRAC_BOUNDS:
             for inc in INCL:
                 add('Integer', allow_None=an, bounds=b, inclusive=inc)
+        # a bound given as infinity (no limit on that side): the schema must still be JSON
+        for t in ('Number', 'Range'):
+            for b in ((0, math.inf), (-math.inf, 10), (-math.inf, math.inf)):
+                add(t, allow_None=an, bounds=b, inclusive=(True, True))
         for b in BOUNDS:
             for inc in (INCL if b else [(True, True)]):
                 add('Range', allow_None=an, bounds=b, inclusive=inc)
@@ -88,9 +92,9 @@ def build(param, cfg):
             vals = good
             probes = bad
             if t == 'Number':
-                if lo is not None:
+                if lo is not None and math.isfinite(lo):
                     probes.append(math.nextafter(float(lo), -math.inf))
-                if hi is not None:
+                if hi is not None and math.isfinite(hi):
                     probes.append(math.nextafter(float(hi), math.inf))
     elif t == 'String':
         if 'regex' in cfg:
@@ -197,6 +201,11 @@ class C16(Harness):
                     vs.append(V('schema-or-serialize-raises', '%s(%s) value %r: %r' % (t, key['cfg'], v, e), level=level, exc=type(e).__name__, **key))
                     continue
                 ps = schema['p']
+                try:
+                    json.dumps(ps, allow_nan=False)
+                except ValueError as e:
+                    vs.append(V('schema-not-json', '%s(%s): schema %r cannot be written as standard JSON: %s' % (t, key['cfg'], ps, e), level=level, **key))
+                    continue
                 try:
                     jsonschema.Draft7Validator.check_schema(ps)
                     hits['schema-wellformed'] += 1
